@@ -439,6 +439,7 @@ func compileStruct(typ *runtime.Type, structName, fieldName string, structTypeTo
 			allFields = append(allFields, fieldSet)
 		}
 	}
+	foldedFieldMap := map[string]*structFieldSet{}
 	for _, set := range filterDuplicatedFields(allFields) {
 		fieldMap[set.key] = set
 		lower := strings.ToLower(set.key)
@@ -446,7 +447,12 @@ func compileStruct(typ *runtime.Type, structName, fieldName string, structTypeTo
 			// first win
 			fieldMap[lower] = set
 		}
+		if _, exists := foldedFieldMap[lower]; !exists {
+			// first win
+			foldedFieldMap[lower] = set
+		}
 	}
+	structDec.foldedFieldMap = foldedFieldMap
 	delete(structTypeToDecoder, typeptr)
 	structDec.tryOptimize()
 	return structDec, nil
